@@ -46,5 +46,13 @@
  */
 int snoopy_output_stdoutoutput (char const * const logMessage, __attribute__((unused)) char const * const arg)
 {
-    return fprintf(stdout, "%s\n", logMessage);
+    int charCount;
+
+    charCount = fprintf(stdout, "%s\n", logMessage);
+
+    // Hand the record to the OS now: when stdout is a pipe or a file it is fully buffered, and
+    // whatever still sits in the stdio buffer is lost once the real exec replaces the process image
+    fflush(stdout);
+
+    return charCount;
 }
